@@ -89,7 +89,12 @@ func (ss *session) eval(src string, maxDur time.Duration) (res runOut) {
 }
 
 // toVal converts a grol object into a reference-evaluator value by type and structure.
-func toVal(o object.Object) gt.Val {
+func toVal(o object.Object) gt.Val { return toValD(o, 0) }
+
+func toValD(o object.Object, depth int) gt.Val {
+	if depth > 150 { // a container that (through in-place aliasing) contains itself
+		return "<nesting deeper than 150: cyclic container?>"
+	}
 	o = object.Value(o)
 	switch v := o.(type) {
 	case object.Integer:
@@ -112,7 +117,7 @@ func toVal(o object.Object) gt.Val {
 		els := object.Elements(o)
 		out := make([]gt.Val, len(els))
 		for i, e := range els {
-			out[i] = toVal(e)
+			out[i] = toValD(e, depth+1)
 		}
 		return &gt.Arr{E: out}
 	case object.MAP:
@@ -121,7 +126,7 @@ func toVal(o object.Object) gt.Val {
 		out := make([]gt.KV, 0, len(keys))
 		for _, k := range keys {
 			v, _ := m.Get(k)
-			out = append(out, gt.KV{K: toVal(k), V: toVal(v)})
+			out = append(out, gt.KV{K: toValD(k, depth+1), V: toValD(v, depth+1)})
 		}
 		return &gt.Map{P: out}
 	}
